@@ -3,17 +3,19 @@
 Spec: spec/Group.tla — general interleaving of members with the invariant Solo (a member's results
 depend on itself only) checked by TLC over all interleavings, plus a negative control with a shared
 flag; the two schedules the implementation offers are step predicates (SerialStep, ByLineStep) and
-the breadth-first yield rule is Keep. Binding: generated groups are run standalone, with the three
-serial methods and the three breadth-first methods (with and without if_all_agree); every member's
-trace in every way is validated by RunTrace (one deterministic run machine => equal results), the
-global schedule of _consider_line calls and the lines handed to the caller are validated by
-spec/GroupTrace.tla."""
+the breadth-first yield rule is Keep; spec/MC_GroupRun.tla proves the same on concrete members
+(SoloConcrete, YieldRule over a closed signal-free pool, negative control with signals). Binding: generated
+groups and the pooled groups are run standalone, with the three serial methods and the three breadth-first
+methods (with and without if_all_agree); every member's run in every way must BE its standalone run
+(spec/SameRun.tla: call by call and in the final state), the global schedule of _consider_line calls and
+the lines handed to the caller are validated by spec/GroupTrace.tla. What a run should be is not judged
+here (the member traces are also validated against the run machine; the count is reported)."""
 import itertools
 import json
 import os
 import random
 
-from lib import common, gen, grouprun, lang, pharness, runtrace, scratch
+from lib import common, gen, grouprun, lang, pharness, runtrace, samerun, scratch
 from lib.tlc import run_tlc, require_ok, MachineryError
 
 PID = "C08"
@@ -29,9 +31,20 @@ def _work(args):
     order = list(range(len(members)))
     rng.shuffle(order)
     members = [members[i] for i in order]
-    records = grp["records"]
+    ways = [(m, False) for m in SERIAL] + [(m, aa) for m in BYLINE for aa in (False, True)]
+    if quick:
+        ways = [ways[i] for i in sorted(rng.sample(range(len(ways)), 4))]
+    return run_group_ways(members, grp["records"], gi * 1000, ways)
+
+
+def _work_pool(case):
+    """one group of MC_GroupRun's signal-free pool, run the way the pool says"""
+    scratch.scratch_dir() or scratch.enter_scratch()
+    return run_group_ways(case["members"], case["records"], 5000000 + case["tid"] * 100, [(case["method"], case["allAgree"])])
+
+
+def run_group_ways(members, records, base, ways):
     traces, scheds, infos = [], [], {}
-    base = gi * 1000
     # (1) standalone
     for mi, mc in enumerate(members):
         case = {"tid": base + mi, "prog": mc["prog"], "records": records, "cfg": dict(mc["cfg"])}
@@ -41,9 +54,6 @@ def _work(args):
         traces.append(rec)
         infos[rec["tid"]] = {"way": "standalone", "member": mi, "csvpath": info["csvpath"], "records": records}
     texts = [grouprun.member_text(mc, ident=f"m{mi}") for mi, mc in enumerate(members)]
-    ways = [(m, False) for m in SERIAL] + [(m, aa) for m in BYLINE for aa in (False, True)]
-    if quick:
-        ways = [ways[i] for i in sorted(rng.sample(range(len(ways)), 4))]
     for wi, (method, all_agree) in enumerate(ways):
         r = grouprun.Recorder()
         try:
@@ -92,7 +102,15 @@ def _work(args):
             "checkYield": yielded is not None,
             "_info": {"way": f"{method}{' if_all_agree' if all_agree else ''}", "texts": texts, "records": records},
         })
-    return {"traces": traces, "scheds": scheds, "infos": infos}
+    # the relation C08 states: every member's run in every way IS its standalone run (spec/SameRun.tla)
+    nm = len(members)
+    same = []
+    for mi in range(nm):
+        mine = [t for t in traces[nm:] if (t["tid"] - base - 10) % 10 == mi]
+        c = samerun.case(base + mi, traces[mi], [samerun.other(t, "same", lines=False, unmatched=False) for t in mine])
+        c["tids"] = [t["tid"] for t in mine]
+        same.append(c)
+    return {"traces": traces, "scheds": scheds, "infos": infos, "same": same}
 
 
 def validate_groups(scheds, rep):
@@ -141,10 +159,17 @@ def main(tier):
     rep.add_tlc("MC_GroupRun negative control (groups WITH cross-path signals declared signal-free): SoloConcrete must fail", rneg)
     if rneg.invariant_violated != "SoloConcrete":
         raise MachineryError("negative control of MC_GroupRun did not violate SoloConcrete: the hypothesis is vacuous")
-    mcgroup.run_pool(rep, tier, {"valid", "allValid", "started", "stopped", "matchCount", "scanCount", "returned", "vars", "yielded", "raised"}, PID, signals=False)
+    pool_cases = mcgroup.pool(tier, common.seed() + 4242, signals=False)
+    rpool = mcgroup.tlc_pool(pool_cases)
+    rep.add_tlc(f"MC_GroupRun: closed pool of {len(pool_cases)} signal-free groups; SoloConcrete, YieldRule and the joint properties", rpool)
+    if rpool.invariant_violated:
+        rep.violation({"kind": "spec", "invariant": rpool.invariant_violated})
+        return rep.finish()
     n = 40 if tier == "quick" else 1500
     outs = common.pmap(_work, [(common.seed(), i, tier == "quick") for i in range(n)], initializer=scratch.enter_scratch, chunksize=2)
-    traces, scheds, infos = [], [], {}
+    # the pooled groups are run for real too, each the way the pool says, and judged like the generated ones
+    outs += common.pmap(_work_pool, pool_cases, initializer=scratch.enter_scratch, chunksize=4)
+    traces, scheds, infos, same = [], [], {}, []
     oom = 0
     for o in outs:
         if o.get("oom"):
@@ -155,22 +180,22 @@ def main(tier):
         traces += o["traces"]
         scheds += o["scheds"]
         infos.update(o["infos"])
-    verdicts = {}
+        same += o["same"]
+    for b in range(0, len(same), 4000):
+        res, sv = samerun.validate(same[b:b + 4000])
+        rep.add_tlc(f"SameRun: every member in every way against its standalone run, batch {b // 4000}", res)
+        for c in same[b:b + 4000]:
+            v = sv[c["tid"]]
+            if v["verdict"] != "ok":
+                w = infos.get(c["tids"][v["at"] - 1]) if 0 < v["at"] <= len(c["tids"]) else None
+                rep.violation({"kind": "member-not-the-same-run", "field": v["verdict"], "at_call": v.get("expected"), "standalone": infos[c["tid"]], "in_group": w})
+    # informational: the member traces against the run machine (what a run should be is C01/C03/C04/C13's business)
+    rejected_n = 0
     for b in range(0, len(traces), 5000):
-        res, v = runtrace.validate(traces[b:b + 5000])
-        rep.add_tlc(f"RunTrace member traces batch {b // 5000}", res)
-        verdicts.update(v)
-    rejected = [t for t in traces if verdicts[t["tid"]][0] != "ok"]
+        res, v = runtrace.validate(traces[b:b + 5000], dev=("AboveCellsAsText", "LtIsLe"))
+        rep.add_tlc(f"RunTrace member traces (informational) batch {b // 5000}", res)
+        rejected_n += sum(1 for t in traces[b:b + 5000] if v[t["tid"]][0] != "ok")
     explained = set()
-    if rejected:
-        res, v = runtrace.validate(rejected, dev=("AboveCellsAsText", "LtIsLe"))
-        rep.add_tlc("RunTrace with the deviations of C01's known findings", res)
-        explained = {t["tid"] for t in rejected if v[t["tid"]][0] == "ok"}
-    for t in rejected:
-        if t["tid"] in explained:
-            continue  # C01's listed findings; reported by C01
-        verdict, at, exp = verdicts[t["tid"]]
-        rep.violation({"kind": "member-trace-rejected", "field": verdict, "at_event": at, "expected_by_spec": exp, **infos[t["tid"]]})
     gv = validate_groups(scheds, rep)
     for s in scheds:
         v = gv.get(s["tid"])
@@ -186,11 +211,12 @@ def main(tier):
     for s in scheds[:: max(1, len(scheds) // 3)][:3]:
         rep.sample({"way": s["_info"]["way"], "group": s["_info"]["texts"], "file": s["_info"]["records"], "yielded": s["yielded"]})
     rep.extra.update({"groups": n, "member_traces": len(traces), "schedules": len(scheds), "out_of_model_groups": oom,
-                      "member_traces_explained_by_C01_findings": len(explained)})
+                      "pooled_groups_run_for_real": len(pool_cases), "member_traces_rejected_by_the_run_machine_not_judged_here": rejected_n})
     rep.rule = ("groups of 1-4 generated csvpaths (no cross-path functions, references or line rewriting) in a random order over one generated "
                 "file; each run standalone, with collect_paths/next_paths/fast_forward_paths and with collect_by_line/next_by_line/"
                 "fast_forward_by_line (with and without if_all_agree)" + (" [quick: 4 of the 9 ways per group]" if tier == "quick" else "")
-                + "; every member trace validated by RunTrace, every schedule and yield by GroupTrace. non-trivial = distinct (group, way, file).")
+                + "; every member's run in every way must be its standalone run (SameRun), every schedule and yield is validated by GroupTrace; the "
+                "signal-free pool of MC_GroupRun is run the same way. non-trivial = distinct (group, way, file).")
     rep.assumptions = ["TLC; RunTrace/GroupTrace", "yielded lines are mapped to records by object identity of the line list",
                        "the general interleaving is checked on the specification only; the implementation offers two schedules"]
     return rep.finish()
